@@ -32,7 +32,21 @@ type Hk struct {
 	Q Queue `sod:"lower"`
 	// Plain: no tag; one configuration gives it a lower constraint through a custom schema only
 	Plain string
+	// Deep: a case constraint four path components down (value nesting)
+	Deep hkD1
+	// Meta.Owner.Name: a case constraint behind a pointer that is not at the first level
+	Meta hkMeta
 }
+
+type hkD3 struct {
+	Leaf string `sod:"lower"`
+}
+type hkD2 struct{ D3 hkD3 }
+type hkD1 struct{ D2 hkD2 }
+type hkOwner struct {
+	Name string `sod:"upper"`
+}
+type hkMeta struct{ Owner *hkOwner }
 
 type Queue string
 
@@ -40,7 +54,10 @@ type Queue string
 var hkPlainLower bool
 
 func newHk(name, u string) *Hk {
-	return &Hk{Name: name, U: u, LU: "Lu" + u, Q: Queue("Qq" + name), Plain: "Pl" + name}
+	h := &Hk{Name: name, U: u, LU: "Lu" + u, Q: Queue("Qq" + name), Plain: "Pl" + name}
+	h.Deep.D2.D3.Leaf = "Leaf" + name
+	h.Meta.Owner = &hkOwner{Name: "Own" + name}
+	return h
 }
 
 type hkEvent struct {
@@ -74,6 +91,9 @@ func (h *Hk) Validate() error {
 	if !strings.HasSuffix(h.Name, "tx") || h.Name != strings.ToLower(h.Name) || h.U != strings.ToUpper(h.U) || !strings.HasPrefix(h.Mark, "seen:") {
 		return errHkInvalid
 	}
+	if h.Deep.D2.D3.Leaf != strings.ToLower(h.Deep.D2.D3.Leaf) || h.Meta.Owner == nil || h.Meta.Owner.Name != strings.ToUpper(h.Meta.Owner.Name) {
+		return errHkInvalid
+	}
 	if h.LU != strings.ToLower(h.LU) || string(h.Q) != strings.ToLower(string(h.Q)) || (hkPlainLower && h.Plain != strings.ToLower(h.Plain)) {
 		return errHkInvalid
 	}
@@ -102,6 +122,8 @@ func expectHk(name, u string, class int) *Hk {
 	if hkPlainLower {
 		h.Plain = strings.ToLower(h.Plain)
 	}
+	h.Deep.D2.D3.Leaf = strings.ToLower("Leaf" + name)
+	h.Meta.Owner = &hkOwner{Name: strings.ToUpper("Own" + name)}
 	return h
 }
 
